@@ -208,3 +208,11 @@ func render(v reflect.Value) string {
 type Err struct{ S string }
 
 func (e *Err) Error() string { return e.S }
+
+// Freeze tells the executor's confinement monitor that everything reachable
+// from x is shared from now on: any later store into it is reported. Natively
+// a no-op (harnesses also assert the observable consequences).
+func Freeze(what string, x any) {}
+
+// FreezeGlobals does the same for the package-level variables of xjs.
+func FreezeGlobals() {}
